@@ -10,8 +10,12 @@ import SkVerif.Model.Metrics
 import SkVerif.Spec.Metrics
 import SkVerif.Lemmas.MetricsSym
 import SkVerif.Lemmas.MetricsScale
+import SkVerif.Lemmas.MetricsGM
+import SkVerif.Lemmas.MetricsMulti
+import SkVerif.Lemmas.MetricsSpec2
 namespace SkVerif.C06
 open SkVerif SkVerif.Metrics SkVerif.Lem.Metrics
+open SkVerif.Spec.Metrics (MAE MSE MAPE MSPE MRAE MASE MSSE IsMedian IsGMean wmean)
 
 /-- the value of EPS in the real code (used only in examples and witnesses) -/
 def EPS : Rat := 1 / 4503599627370496
@@ -54,3 +58,389 @@ theorem loss_nonneg (eps : Rat) (he : 0 < eps) (m : Metric) (a : Args) (out : Ou
 
 example : call EPS .mase { yt := [[1, 2]], yp := [[3/2, 2]], ytr := some (.arr [[0, 1, 3]]), hw := some [1, 3] }
     = .ok (.avg 1 none [1 / 12]) := by decide +kernel
+
+/-! ## 2. … and zero for a perfect forecast (geometric means: the machine-epsilon floor) -/
+
+/-- The 16 metrics that are not geometric means return exactly 0 when `y_pred = y_true` (all options, all weights). -/
+theorem loss_zero_of_perfect (eps : Rat) (m : Metric) (a : Args) (out : Out) (hm : m ≠ .gmrae ∧ m ≠ .gmrse)
+    (hp : a.yp = a.yt) (h : call eps m a = .ok out) :
+    (∀ q ∈ out.qs, q = 0) ∧ (∀ v ∈ out.perCol, v = 0) := by
+  cases m <;> simp only [call, hp] at h
+  case mae => exact mae_perfect h
+  case mse => exact mse_perfect h
+  case mdae => exact mdae_perfect h
+  case mdse => exact mdse_perfect h
+  case mape => exact mape_perfect h
+  case mdape => exact mdape_perfect h
+  case mspe => exact mspe_perfect h
+  case mdspe => exact mdspe_perfect h
+  case masym => exact masym_perfect h
+  case mrae => cases hb : a.yb <;> simp only [hb, needArg] at h <;> (first | cases h | exact mrae_perfect h)
+  case mdrae => cases hb : a.yb <;> simp only [hb, needArg] at h <;> (first | cases h | exact mdrae_perfect h)
+  case gmrae => exact absurd rfl hm.1
+  case gmrse => exact absurd rfl hm.2
+  case relloss =>
+    cases hb : a.yb <;> simp only [hb, needArg] at h <;> (first | cases h | exact relativeLoss_perfect h)
+  case mase =>
+    cases hb : a.ytr <;> simp only [hb, needArg] at h <;>
+    (first | cases h | exact scaled_perfect (fun _ _ _ _ h' => mae_perfect h') h)
+  case mdase =>
+    cases hb : a.ytr <;> simp only [hb, needArg] at h <;>
+    (first | cases h | exact scaled_perfect (fun _ _ _ _ h' => mdae_perfect h') h)
+  case msse =>
+    cases hb : a.ytr <;> simp only [hb, needArg] at h <;>
+    (first | cases h | exact scaled_perfect (fun _ _ _ _ h' => mse_perfect h') h)
+  case mdsse =>
+    cases hb : a.ytr <;> simp only [hb, needArg] at h <;>
+    (first | cases h | exact scaled_perfect (fun _ _ _ _ h' => mdse_perfect h') h)
+
+example : call EPS .mdspe { yt := [[1, -2, 0]], yp := [[1, -2, 0]], hw := some [1, 0, 2], sqrt := true }
+    = .ok (.avg 2 none [0]) := by decide +kernel
+
+/-- Geometric means without horizon weights at a perfect forecast: every relative error is 0, is floored to `eps`,
+so the radicand is `eps ^ n` with root degree `n` (GMRAE, GMRSE) or `2n` (root GMRSE): the reported value `g` is the
+documented floor, `g ^ n = eps ^ n` resp. `(g*g) ^ n = eps ^ n`.
+FULL STATEMENT (all `horizon_weight`): false in the code, see `gm_weighted_floor_violated`; this is the part with
+`horizon_weight = None`, hence `_partial`. -/
+theorem gm_floor_of_perfect_partial (eps : Rat) (he : 0 < eps) (yt yb : Mat) (mo : MO) (sqrt : Bool) (out : Out)
+    (hRt : Rect yt) (hRb : Rect yb) :
+    (geometricMeanRelativeAbsoluteError eps yt yt yb none mo = .ok out →
+      out.deg = nrows yt ∧ ∀ q ∈ out.qs, IsGMean eps (nrows yt) q) ∧
+    (geometricMeanRelativeSquaredError eps yt yt yb none mo sqrt = .ok out →
+      out.deg = rootDeg sqrt (nrows yt) ∧ ∀ q ∈ out.qs, IsGMean eps (nrows yt) q) := by
+  constructor
+  · intro h
+    obtain ⟨h1, h2⟩ := gmrae_perfect_floor hRt hRb h
+    exact ⟨h1, fun q hq => ⟨le_of_lt he, (h2 q hq).symm⟩⟩
+  · intro h
+    obtain ⟨h1, h2⟩ := gmrse_perfect_floor hRt hRb h
+    exact ⟨h1, fun q hq => ⟨le_of_lt he, (h2 q hq).symm⟩⟩
+
+example : geometricMeanRelativeSquaredError EPS [[1, 2]] [[1, 2]] [[0, 5]] none .raw true
+    = .ok (.raw 4 [EPS ^ 2]) := by decide +kernel
+
+/-! ## 3. Symmetric percentage errors: swap-invariant, within [0, 2] -/
+
+/-- sMAPE, sMdAPE, sMSPE, sMdSPE (`symmetric = True`): swapping `y_true` and `y_pred` changes nothing —
+same value, same error, for every shape, weight and option. -/
+theorem spe_symm (eps : Rat) (yt yp : Mat) (hw : Option (List Rat)) (mo : MO) (sqrt : Bool) :
+    meanAbsolutePercentageError eps yp yt hw mo true = meanAbsolutePercentageError eps yt yp hw mo true ∧
+    medianAbsolutePercentageError eps yp yt hw mo true = medianAbsolutePercentageError eps yt yp hw mo true ∧
+    meanSquaredPercentageError eps yp yt hw mo sqrt true = meanSquaredPercentageError eps yt yp hw mo sqrt true ∧
+    medianSquaredPercentageError eps yp yt hw mo sqrt true = medianSquaredPercentageError eps yt yp hw mo sqrt true :=
+  ⟨mape_swap eps yt yp hw mo, mdape_swap eps yt yp hw mo, mspe_swap eps yt yp hw mo sqrt,
+   mdspe_swap eps yt yp hw mo sqrt⟩
+
+/-- sMAPE and sMdAPE lie in [0, 2]; the radicands of sMSPE / sMdSPE lie in [0, 4] (so the root variants lie in [0, 2]).
+Per output column; horizon weights ≥ 0. -/
+theorem spe_mem_Icc_0_2 (eps : Rat) (he : 0 < eps) (yt yp : Mat) (hw : Option (List Rat)) (mo : MO) (sqrt : Bool)
+    (out : Out) (hn : NonnegW hw) :
+    (meanAbsolutePercentageError eps yt yp hw mo true = .ok out → ∀ q ∈ out.qs, 0 ≤ q ∧ q ≤ 2) ∧
+    (medianAbsolutePercentageError eps yt yp hw mo true = .ok out → ∀ q ∈ out.qs, 0 ≤ q ∧ q ≤ 2) ∧
+    (meanSquaredPercentageError eps yt yp hw mo sqrt true = .ok out → ∀ q ∈ out.qs, 0 ≤ q ∧ q ≤ 4) ∧
+    (medianSquaredPercentageError eps yt yp hw mo sqrt true = .ok out → ∀ q ∈ out.qs, 0 ≤ q ∧ q ≤ 4) :=
+  ⟨mape_sym_le he hn, mdape_sym_le he, mspe_sym_le he hn, mdspe_sym_le he⟩
+
+/-- the bound 2 is attained (sign change) -/
+example : meanAbsolutePercentageError EPS [[1, -2]] [[-1, 3]] none .raw true = .ok (.raw 1 [2]) := by decide +kernel
+
+/-- element-wise: sAPE is the textbook 2|a−f|/(|a|+|f|) whenever |a|+|f| ≥ eps, APE is (a−f)/|a| whenever |a| ≥ eps -/
+theorem pct_eq_textbook (eps t p : Rat) :
+    (eps ≤ |t| + |p| → pctErr eps true t p = 2 * |t - p| / (|t| + |p|)) ∧
+    (eps ≤ |t| → pctErr eps false t p = (t - p) / |t|) :=
+  ⟨pctErr_sym_eq_textbook eps t p, pctErr_asym_eq_textbook eps t p⟩
+
+/-- element-wise: the relative error is the textbook (a−f)/(a−f*) whenever |a−f*| ≥ eps; the clamp keeps the sign -/
+theorem rel_eq_textbook (eps t p b : Rat) (he : 0 < eps) :
+    (eps ≤ |t - b| → relErr eps t p b = (t - p) / (t - b)) ∧ eps ≤ |relDen eps t b| :=
+  ⟨relErr_eq_textbook eps t p b, abs_relDen_ge eps t b he⟩
+
+/-- element-wise: the asymmetric error applies `left` strictly below the threshold and `right` from it on -/
+theorem asym_eq_textbook (thr : Rat) (l r : EF) (t p : Rat) :
+    (t - p < thr → asymErr thr l r t p = l.app (t - p)) ∧ (thr ≤ t - p → asymErr thr l r t p = r.app (t - p)) :=
+  ⟨asymErr_left thr l r t p, asymErr_right thr l r t p⟩
+
+/-! ## 4. Class wrappers -/
+
+/-- FULL STATEMENT: each of the 18 metric classes returns exactly what its function returns with the same options.
+Proved for the 8 classes whose function takes (y_true, y_pred) only (`_partial`; defaults `horizon_weight=None`,
+`multioutput="uniform_average"`); false for the other 10, see `class_call_raises`. -/
+theorem class_call_eq_function_partial (eps : Rat) (o : ClsOpts) (yt yp : Mat) :
+    classCall eps .mae o yt yp = meanAbsoluteError yt yp none .uniform ∧
+    classCall eps .mdae o yt yp = medianAbsoluteError yt yp none .uniform ∧
+    classCall eps .mse o yt yp = meanSquaredError yt yp none .uniform o.sqrt ∧
+    classCall eps .mdse o yt yp = medianSquaredError yt yp none .uniform o.sqrt ∧
+    classCall eps .mape o yt yp = meanAbsolutePercentageError eps yt yp none .uniform o.sym ∧
+    classCall eps .mdape o yt yp = medianAbsolutePercentageError eps yt yp none .uniform o.sym ∧
+    classCall eps .mspe o yt yp = meanSquaredPercentageError eps yt yp none .uniform o.sqrt o.sym ∧
+    classCall eps .mdspe o yt yp = medianSquaredPercentageError eps yt yp none .uniform o.sqrt o.sym :=
+  ⟨rfl, rfl, rfl, rfl, rfl, rfl, rfl, rfl⟩
+
+/-- FULL STATEMENT "each metric class returns exactly what its function returns with the same options" is false for
+the other 10 classes: they raise on EVERY input (TypeError: the function misses `y_train` / `y_pred_benchmark`;
+AttributeError: `asymmetric_treshold` / `_relative_func` do not exist) … -/
+theorem class_call_raises (eps : Rat) (o : ClsOpts) (yt yp : Mat) :
+    (∀ m ∈ [Metric.mase, .mdase, .msse, .mdsse, .mrae, .mdrae, .gmrae, .gmrse], classCall eps m o yt yp = .error .type) ∧
+    (∀ m ∈ [Metric.masym, .relloss], classCall eps m o yt yp = .error .attr) := by
+  constructor <;> intro m hm <;> simp only [List.mem_cons, List.mem_nil_iff, or_false] at hm <;>
+    rcases hm with rfl | hm <;> first | rfl | (try rcases hm with rfl | hm) <;> first | rfl | skip
+  all_goals (repeat (first | rfl | (rcases hm with rfl | hm)))
+
+/-- … while the functions they wrap return a value on ordinary input (witness: y_true=[1,2,3], y_pred=[3/2,2,2],
+benchmark=[2,1,4], y_train=[1,3,2,5]). -/
+theorem class_call_differs_witness :
+    ∀ m ∈ [Metric.mase, .mdase, .msse, .mdsse, .mrae, .mdrae, .gmrae, .gmrse, .masym, .relloss],
+      (call EPS m { yt := [[1, 2, 3]], yp := [[3/2, 2, 2]], yb := some [[2, 1, 4]],
+                    ytr := some (.arr [[1, 3, 2, 5]]) }).isOk = true ∧
+      (classCall EPS m {} [[1, 2, 3]] [[3/2, 2, 2]]).isOk = false := by
+  decide +kernel
+
+/-! ## 5. Textbook formulas (Spec/Metrics.lean), per output column -/
+
+/-- MAE and MSE are the (horizon-weighted) means of |a−f| resp. (a−f)²; `square_root` only doubles the root degree -/
+theorem mae_mse_eq_spec (yt yp : Mat) (hw : Option (List Rat)) (mo : MO) (sqrt : Bool) (out : Out) :
+    (meanAbsoluteError yt yp hw mo = .ok out → out.deg = 1 ∧ out.qs = List.zipWith (MAE hw) yt yp) ∧
+    (meanSquaredError yt yp hw mo sqrt = .ok out →
+      out.deg = rootDeg sqrt 1 ∧ out.qs = List.zipWith (MSE hw) yt yp) := by
+  constructor
+  · intro h
+    obtain ⟨h1, h2⟩ := finish_ok (mae_iff.mp h).2.2.2
+    refine ⟨h2, ?_⟩
+    rw [h1]; congr 1; funext t p
+    rw [npAverage_eq_wmean, absErrs_eq_spec]; rfl
+  · intro h
+    obtain ⟨h1, h2⟩ := finish_ok (mse_iff.mp h).2.2.2
+    refine ⟨h2, ?_⟩
+    rw [h1]; congr 1; funext t p
+    rw [npAverage_eq_wmean, sqErrs_eq_spec]; rfl
+
+/-- MAPE / sMAPE and MSPE / sMSPE are the (weighted) means of the textbook percentage errors (resp. their squares),
+provided no actual value is closer to zero than eps (otherwise the denominator is clamped to eps). -/
+theorem mape_mspe_eq_spec (eps : Rat) (he : 0 < eps) (yt yp : Mat) (hw : Option (List Rat)) (mo : MO) (sym sqrt : Bool)
+    (out : Out) (hg : ∀ t ∈ yt, ∀ a ∈ t, eps ≤ |a|) :
+    (meanAbsolutePercentageError eps yt yp hw mo sym = .ok out →
+      out.deg = 1 ∧ out.qs = List.zipWith (MAPE hw sym) yt yp) ∧
+    (meanSquaredPercentageError eps yt yp hw mo sqrt sym = .ok out →
+      out.deg = rootDeg sqrt 1 ∧ out.qs = List.zipWith (MSPE hw sym) yt yp) := by
+  constructor
+  · intro h
+    obtain ⟨h1, h2⟩ := finish_ok (mape_iff.mp h).2.2.2
+    refine ⟨h2, ?_⟩
+    rw [h1]
+    apply zipWith_congr_mem
+    intro t ht p _
+    rw [npAverage_eq_wmean, pctCol_abs_eq_spec eps he sym t p (hg t ht)]; rfl
+  · intro h
+    obtain ⟨h1, h2⟩ := finish_ok (mspe_iff.mp h).2.2.2
+    refine ⟨h2, ?_⟩
+    rw [h1]
+    apply zipWith_congr_mem
+    intro t ht p _
+    rw [npAverage_eq_wmean, pctCol_sqr_eq_spec eps he sym t p (hg t ht)]; rfl
+
+example : meanAbsolutePercentageError EPS [[1, 2], [4, -1]] [[3/2, 2], [2, 1]] (some [1, 3]) .raw false
+    = .ok (.raw 1 [1/8, 13/8]) := by decide +kernel
+
+/-- the mean asymmetric error is the (weighted) mean of the asymmetric loss -/
+theorem masym_eq_spec (yt yp : Mat) (hw : Option (List Rat)) (mo : MO) (thr : Rat) (l r : EF) (out : Out)
+    (h : meanAsymmetricError yt yp hw mo thr (some l) (some r) = .ok out) :
+    out.deg = 1 ∧ out.qs = List.zipWith (fun t p => wmean hw (Spec.Metrics.asymLoss thr l.app r.app t p)) yt yp := by
+  obtain ⟨h1, h2⟩ := finish_ok (masym_iff.mp h).2.2.2
+  refine ⟨h2, ?_⟩
+  rw [h1]; congr 1
+/-- … with `squared` = x² and `absolute` = |x| -/
+theorem ef_app_eq (x : Rat) : EF.squared.app x = x ^ 2 ∧ EF.absolute.app x = |x| :=
+  ⟨sqr_eq_pow x, absR_eq_abs x⟩
+
+/-- univariate MRAE = (weighted) mean of |(a−f)/(a−f*)| while the benchmark stays at least eps away from the truth -/
+theorem mrae_univariate_eq_spec (eps : Rat) (t p b : Col) (hw : Option (List Rat)) (mo : MO) (out : Out)
+    (hg : ∀ x ∈ List.zipWith (fun a g => |a - g|) t b, eps ≤ x)
+    (h : meanRelativeAbsoluteError eps [t] [p] [b] hw mo = .ok out) : out.deg = 1 ∧ out.qs = [MRAE hw t p b] := by
+  obtain ⟨h1, h2⟩ := finish_ok (mrae_iff.mp h).2.2.2.2
+  refine ⟨h2, ?_⟩
+  rw [h1]
+  simp only [relCols]
+  rw [relCol_eq_spec eps t p b hg, map_absR_eq, npAverage_eq_wmean]; rfl
+
+/-- univariate MASE and MSSE / RMSSE (`raw_values`) are the textbook ratios to the in-sample seasonal-naive error,
+for every seasonal period 0 < sp < len(y_train), while that naive error is at least eps. -/
+theorem scaled_univariate_eq_spec (eps : Rat) (t p c : Col) (ix : Option (Int × Int)) (sp : Int)
+    (hw : Option (List Rat)) (sqrt : Bool) (out : Out) (h0 : 0 < sp) (h1 : sp < c.length) :
+    (eps ≤ wmean none ((Spec.Metrics.naiveErr sp.toNat c).map (|·|)) →
+      meanAbsoluteScaledError eps [t] [p] (.arr [c]) ix sp hw .raw = .ok out →
+      out = .raw 1 [MASE hw sp.toNat t p c]) ∧
+    (eps ≤ wmean none ((Spec.Metrics.naiveErr sp.toNat c).map (· ^ 2)) →
+      meanSquaredScaledError eps [t] [p] (.arr [c]) ix sp hw .raw sqrt = .ok out →
+      out = .raw (rootDeg sqrt 1) [MSSE hw sp.toNat t p c]) :=
+  ⟨fun hg h => mase_univariate_eq_spec h0 h1 hg h, fun hg h => msse_univariate_eq_spec h0 h1 hg h⟩
+
+example : meanAbsoluteScaledError EPS [[3, -1/2, 2, 7, 2]] [[5/2, 0, 2, 8, 5/4]] (.arr [[5, 1/2, 4, 6, 3, 5, 2]]) none 1
+    none .raw = .ok (.raw 1 [11/60]) := by decide +kernel   -- the docstring example 0.18333…
+
+/-- `np.median` (used by the six median metrics when `horizon_weight=None`) returns a median in the textbook
+sense: at least half of the values are ≤ it and at least half are ≥ it. -/
+theorem median_reducer_is_median (xs : List Rat) (hne : xs ≠ []) : IsMedian (median xs) xs :=
+  median_isMedian xs hne
+
+/-- … e.g. univariate MdAE: the returned value is a median of the absolute errors -/
+theorem mdae_univariate_is_median (t p : Col) (mo : MO) (out : Out)
+    (h : medianAbsoluteError [t] [p] none mo = .ok out) :
+    out.deg = 1 ∧ ∃ m, out.qs = [m] ∧ IsMedian m (Spec.Metrics.absErr t p) := by
+  obtain ⟨hc, _, hf⟩ := mdae_iff.mp h
+  obtain ⟨h1, h2⟩ := finish_ok hf
+  refine ⟨h2, median (absErrs t p), by rw [h1]; rfl, ?_⟩
+  rw [← absErrs_eq_spec]
+  apply median_isMedian
+  obtain ⟨e1, e2, _⟩ := checkRegTargets_ok hc
+  simp only [nrows] at e1 e2
+  intro hnil
+  have : (absErrs t p).length = 0 := by rw [hnil]; rfl
+  simp only [absErrs, List.length_zipWith] at this
+  omega
+
+/-- the weighted percentile (median metrics with `horizon_weight`) returns one of the data values, hence stays within
+any bounds of the data; the weighted and unweighted medians are homogeneous for positive factors -/
+theorem weighted_median_laws (ws xs : List Rat) (c : Rat) (hc : 0 < c) :
+    (wpct ws xs = 0 ∨ wpct ws xs ∈ xs) ∧ wpct ws (xs.map (c * ·)) = c * wpct ws xs ∧
+    median (xs.map (c * ·)) = c * median xs :=
+  ⟨wpct_mem ws xs, wpct_scale c hc ws xs, median_scale c hc xs⟩
+
+/-! ## 6. Horizon weights and multi-output options -/
+
+/-- `np.average(·, weights=w)`: unit weights give the plain mean, and only the proportions of the weights matter -/
+theorem horizon_weight_is_weighted_mean (ws xs : List Rat) (c : Rat) (hc : c ≠ 0) :
+    npAverage (some ws) xs = (List.zipWith (· * ·) ws xs).sum / ws.sum ∧
+    npAverage (some (List.replicate xs.length 1)) xs = npAverage none xs ∧
+    npAverage (some (ws.map (c * ·))) xs = npAverage (some ws) xs :=
+  ⟨rfl, wavg_ones xs, wavg_weights_scale c hc ws xs⟩
+
+/-- For the nine metrics that do not call another metric and take (y_true, y_pred) —
+MAE, MSE, MdAE, MdSE, MAPE, MdAPE, MSPE, MdSPE, mean asymmetric error — `IsDirect` holds … -/
+theorem direct_metrics (eps : Rat) (sym sqrt : Bool) (thr : Rat) (l r : EF) :
+    IsDirect meanAbsoluteError (fun hw t p => npAverage hw (absErrs t p)) 1 true ∧
+    IsDirect (fun a b h m => meanSquaredError a b h m sqrt) (fun hw t p => npAverage hw (sqErrs t p)) (rootDeg sqrt 1) true ∧
+    IsDirect medianAbsoluteError (fun hw t p => medianW hw (absErrs t p)) 1 false ∧
+    IsDirect (fun a b h m => medianSquaredError a b h m sqrt) (fun hw t p => medianW hw (sqErrs' t p)) (rootDeg sqrt 1) false ∧
+    IsDirect (fun a b h m => meanAbsolutePercentageError eps a b h m sym)
+      (fun hw t p => npAverage hw ((pctCol eps sym t p).map absR)) 1 true ∧
+    IsDirect (fun a b h m => medianAbsolutePercentageError eps a b h m sym) (fun hw => mdapeCol eps hw sym) 1 false ∧
+    IsDirect (fun a b h m => meanSquaredPercentageError eps a b h m sqrt sym)
+      (fun hw t p => npAverage hw ((pctCol eps sym t p).map sqr)) (rootDeg sqrt 1) true ∧
+    IsDirect (fun a b h m => medianSquaredPercentageError eps a b h m sqrt sym)
+      (fun hw t p => medianW hw ((pctCol eps sym t p).map sqr)) (rootDeg sqrt 1) false ∧
+    IsDirect (fun a b h m => meanAsymmetricError a b h m thr (some l) (some r))
+      (fun hw t p => npAverage hw (asymCol thr l r t p)) 1 true :=
+  ⟨isDirect_mae, isDirect_mse sqrt, isDirect_mdae, isDirect_mdse sqrt, isDirect_mape eps sym, isDirect_mdape eps sym,
+   isDirect_mspe eps sqrt sym, isDirect_mdspe eps sqrt sym, isDirect_masym thr l r⟩
+
+/-- … and for every such metric `f`: with `raw_values` the j-th value is exactly what `f` returns for column j alone;
+`uniform_average` is the plain average and output weights `w` the `w`-weighted average of those raw values. -/
+theorem multioutput_is_per_column {f : Mat → Mat → Option (List Rat) → MO → Except Err Out}
+    {colf : Option (List Rat) → Col → Col → Rat} {k : Nat} {ns : Bool} (hd : IsDirect f colf k ns)
+    (yt yp : Mat) (hw : Option (List Rat)) (qs : List Rat) (hRt : Rect yt) (hRp : Rect yp) :
+    (f yt yp hw .raw = .ok (.raw k qs) → ∀ j (hjt : j < yt.length) (hjp : j < yp.length),
+        ∃ hq : j < qs.length, f [yt[j]] [yp[j]] hw .uniform = .ok (.avg k none [qs[j]])) ∧
+    (f yt yp hw .uniform = .ok (.avg k none qs) ↔ f yt yp hw .raw = .ok (.raw k qs)) ∧
+    (∀ w out, f yt yp hw (.weights w) = .ok out →
+        ∃ qs', f yt yp hw .raw = .ok (.raw k qs') ∧ out = .avg k (some w) qs') :=
+  ⟨fun h j hjt hjp => direct_raw_per_column hd yt yp hw qs hRt hRp h j hjt hjp,
+   direct_uniform_iff_raw hd yt yp hw qs,
+   fun w out h => direct_weights_of_raw hd yt yp hw w out h⟩
+
+example : meanSquaredError [[1, 2, 3], [2, 1, 5]] [[1, 3, 3], [1, 1, 2]] none (.weights [1, 3]) true
+    = .ok (.avg 2 (some [1, 3]) [1/3, 10/3]) := by decide +kernel   -- RMSE per column, then weighted average
+
+/-! ## 7. Scaled errors are invariant to rescaling all series -/
+
+/-- MASE, MdASE, MSSE / RMSSE, MdSSE / RMdSSE: multiplying y_true, y_pred and y_train by c > 0 changes nothing, for all
+shapes, seasonal periods, weights and multi-output options — as long as the in-sample naive error (every column, or
+their average) is at least eps before and after (below eps the code divides by eps instead; see the witness). -/
+theorem scaled_scale_invariant (eps c : Rat) (hc : 0 < c) (yt yp tr : Mat) (ix : Option (Int × Int)) (sp : Int)
+    (hw : Option (List Rat)) (mo : MO) (sqrt : Bool) (out : Out) :
+    (meanAbsoluteScaledError eps yt yp (.arr tr) ix sp hw mo = .ok out →
+      (∀ naive, meanAbsoluteError (tr.map (naiveTrue sp)) (tr.map (naivePred sp)) none mo = .ok naive →
+        ∀ d ∈ naive.perCol, eps ≤ d ∧ eps ≤ c * d) →
+      meanAbsoluteScaledError eps (scaleMat c yt) (scaleMat c yp) (.arr (scaleMat c tr)) ix sp hw mo = .ok out) ∧
+    (medianAbsoluteScaledError eps yt yp (.arr tr) ix sp hw mo = .ok out →
+      (∀ naive, medianAbsoluteError (tr.map (naiveTrue sp)) (tr.map (naivePred sp)) none mo = .ok naive →
+        ∀ d ∈ naive.perCol, eps ≤ d ∧ eps ≤ c * d) →
+      medianAbsoluteScaledError eps (scaleMat c yt) (scaleMat c yp) (.arr (scaleMat c tr)) ix sp hw mo = .ok out) ∧
+    (meanSquaredScaledError eps yt yp (.arr tr) ix sp hw mo sqrt = .ok out →
+      (∀ naive, meanSquaredError (tr.map (naiveTrue sp)) (tr.map (naivePred sp)) none mo false = .ok naive →
+        ∀ d ∈ naive.perCol, eps ≤ d ∧ eps ≤ c * c * d) →
+      meanSquaredScaledError eps (scaleMat c yt) (scaleMat c yp) (.arr (scaleMat c tr)) ix sp hw mo sqrt = .ok out) ∧
+    (medianSquaredScaledError eps yt yp (.arr tr) ix sp hw mo sqrt = .ok out →
+      (∀ naive, medianSquaredError (tr.map (naiveTrue sp)) (tr.map (naivePred sp)) none mo false = .ok naive →
+        ∀ d ∈ naive.perCol, eps ≤ d ∧ eps ≤ c * c * d) →
+      medianSquaredScaledError eps (scaleMat c yt) (scaleMat c yp) (.arr (scaleMat c tr)) ix sp hw mo sqrt = .ok out) := by
+  refine ⟨fun h hg => ?_, fun h hg => ?_, fun h hg => ?_, fun h hg => ?_⟩
+  · exact Lem.Metrics.scaled_scale_invariant c c hc (fun a b h m => mae_scale c hc a b h m) h hg
+  · exact Lem.Metrics.scaled_scale_invariant c c hc (fun a b h m => mdae_scale c hc a b h m) h hg
+  · exact Lem.Metrics.scaled_scale_invariant c (c * c) (mul_pos hc hc) (fun a b h m => mse_scale c a b h m false) h hg
+  · exact Lem.Metrics.scaled_scale_invariant c (c * c) (mul_pos hc hc) (fun a b h m => mdse_scale c hc a b h m false) h hg
+
+/-- The unconditional statement is false: with a flat training series the naive error is 0, the code divides by EPS,
+and doubling all series doubles MASE (y_true=[1], y_pred=[2], y_train=[3,3]: 2^52 versus 2^53). -/
+theorem scaled_not_scale_invariant_when_clamped :
+    meanAbsoluteScaledError EPS [[1]] [[2]] (.arr [[3, 3]]) none 1 none .raw = .ok (.raw 1 [4503599627370496]) ∧
+    meanAbsoluteScaledError EPS (scaleMat 2 [[1]]) (scaleMat 2 [[2]]) (.arr (scaleMat 2 [[3, 3]])) none 1 none .raw
+      = .ok (.raw 1 [9007199254740992]) := by
+  decide +kernel
+
+/-! ## 8. Where the code departs from the property (known findings; the model keeps the code's behaviour) -/
+
+/-- FULL STATEMENT: MdAPE with horizon weights is the weighted median of |percentage errors of (y_true, y_pred)|.
+Proved for `symmetric=True` or no weights only (`_partial`): the weighted branch of the code passes (y_pred, y_true). -/
+theorem mdape_weighted_partial (eps : Rat) (yt yp : Mat) (hw : Option (List Rat)) (mo : MO) (sym : Bool) (out : Out)
+    (hx : hw = none ∨ sym = true) (h : medianAbsolutePercentageError eps yt yp hw mo sym = .ok out) :
+    out.qs = List.zipWith (fun t p => medianW hw ((pctCol eps sym t p).map absR)) yt yp := by
+  rw [(finish_ok (mdape_iff.mp h).2.2).1]
+  congr 1; funext t p
+  unfold mdapeCol
+  rcases hx with rfl | rfl
+  · rfl
+  · cases hw with
+    | none => rfl
+    | some w => simp only [medianW]; rw [pctCol_sym_swap]
+
+/-- negation at the witness y_true=[1,2,3,4], y_pred=[3/2,2,2,5], w=[1,1,1,1], symmetric=False:
+the code returns 1/5, the weighted median of |a−f|/|a| is 1/4 -/
+theorem mdape_weighted_swapped_witness :
+    medianAbsolutePercentageError EPS [[1, 2, 3, 4]] [[3/2, 2, 2, 5]] (some [1, 1, 1, 1]) .raw false
+      = .ok (.raw 1 [1/5]) ∧
+    medianW (some [1, 1, 1, 1]) ((pctCol EPS false [1, 2, 3, 4] [3/2, 2, 2, 5]).map absR) = 1/4 := by
+  decide +kernel
+
+/-- FULL STATEMENT: GMRAE / GMRSE = (weighted) geometric mean over the horizon of the floored relative errors, one
+value per output column.  Proved without horizon weights (`_partial`): radicand = product over the n steps of
+floor(|rel. error|) (resp. its square), root degree n (2n with `square_root`). -/
+theorem gm_eq_spec_partial (eps : Rat) (yt yp yb : Mat) (mo : MO) (sqrt : Bool) (out : Out) :
+    (geometricMeanRelativeAbsoluteError eps yt yp yb none mo = .ok out →
+      out.deg = nrows yt ∧
+      out.qs = relCols eps (fun re => prod (re.map (fun e => floorEps eps (absR e)))) yt yp yb) ∧
+    (geometricMeanRelativeSquaredError eps yt yp yb none mo sqrt = .ok out →
+      out.deg = rootDeg sqrt (nrows yt) ∧
+      out.qs = relCols eps (fun re => prod (re.map (fun e => floorEps eps (sqr e)))) yt yp yb) := by
+  constructor
+  · intro h
+    obtain ⟨_, _, _, kq, h1, h2⟩ := gmrae_iff.mp h
+    rw [gmCols_none] at h1; cases h1
+    exact ⟨(finish_ok h2).2, (finish_ok h2).1⟩
+  · intro h
+    obtain ⟨_, _, _, kq, h1, h2⟩ := gmrse_iff.mp h
+    rw [gmCols_none] at h1; cases h1
+    exact ⟨(finish_ok h2).2, (finish_ok h2).1⟩
+
+/-- negation with horizon weights (numpy broadcasts the (n,) weights against the (n,k) log-errors along the column
+axis): a univariate series yields n values instead of 1; 3 steps × 2 columns raise ValueError; and at a perfect
+forecast the result is not the EPS floor (radicands EPS², EPS⁶ under a 4th root instead of EPS⁴). -/
+theorem gm_weighted_violated :
+    geometricMeanRelativeAbsoluteError EPS [[1, 2, 3, 4]] [[3/2, 5/2, 2, 5]] [[2, 1, 4, 6]] (some [1, 2, 3, 2]) .raw
+      = .ok (.raw 8 [1/8, 1/64, 1/512, 1/64]) ∧
+    geometricMeanRelativeAbsoluteError EPS [[1, 2, 3], [2, 3, 4]] [[3/2, 5/2, 2], [2, 2, 5]] [[2, 1, 4], [0, 0, 1]]
+      (some [1, 1, 1]) .uniform = .error .value ∧
+    geometricMeanRelativeAbsoluteError EPS [[1, 2]] [[1, 2]] [[0, 0]] (some [1, 3]) .uniform
+      = .ok (.avg 4 none [EPS ^ 2, EPS ^ 6]) := by
+  decide +kernel
+
+end SkVerif.C06
